@@ -39,6 +39,23 @@ func ruleRecordOffset() *Rule {
 						ob := Obligation{Rule: id, Construct: "offset of the record written by encodeLogEntry" + ordSuffix(n) + " in " + FuncName(fn), Pos: p.InstrPos(in)}
 						w, e := c.Common().Args[0], c.Common().Args[1]
 						if al, ok := e.(*ssa.Alloc); ok {
+							// a copy of an entry that stays in memory (`c := *entry; c.Offset = …; encode(&c)`): the record gets
+							// the position, the entry the log keeps does not — Truncate later seeks by the in-memory Offset
+							copied := false
+							for _, r := range *al.Referrers() {
+								if s, ok := r.(*ssa.Store); ok && s.Addr == ssa.Value(al) {
+									if u, ok := s.Val.(*ssa.UnOp); ok && u.Op == token.MUL {
+										copied = true
+									}
+								}
+							}
+							if copied {
+								ob.Verdict = Violated
+								ob.Detail = "the record is encoded from a COPY of the entry: the position is assigned to the copy, while the entry that stays in the in-memory log keeps the offset it had in the old file; " +
+									"Truncate seeks and cuts the file by the in-memory Offset, so a later conflict leaves the old suffix on disk and the replacement lands behind it (visible after a reopen)"
+								out = append(out, ob)
+								continue
+							}
 							// fresh placeholder: its Offset must not be set to anything but the zero value
 							okZero := true
 							for _, r := range *al.Referrers() {
